@@ -284,7 +284,12 @@ func decideRendered(c Case) error {
 	return nil
 }
 
-func decide(c Case, rendered bool) error {
+func decide(c Case, rendered bool) (err error) {
+	defer func() {
+		if x := recover(); x != nil {
+			err = fmt.Errorf("the sanitiser panics: %v", x)
+		}
+	}()
 	if _, _, err := decideFn(c); err != nil {
 		return err
 	}
@@ -309,7 +314,10 @@ func nt(c Case) bool {
 }
 
 var valueTokens = []string{";", ":", "{", "}", "(", ")", "\"", "'", "\\", "/", "*", "/*", "*/", "<", ">", ",", "@", "!important", "a", "1px", " ", "\n",
-	"url(", "url(\"", "url(a)", "url()", "expression(", "http://h/p", "javascript:x", "</style>", "-->", "\u0085", "\u00a0"}
+	"url(", "url(\"", "url(a)", "url()", "expression(", "http://h/p", "javascript:x", "</style>", "-->", "\u0085", "\u00a0",
+	// characters whose lower-case form has another byte length (KELVIN SIGN 3->1, OHM SIGN, ANGSTROM SIGN and capital sharp s 3->2, dotted capital I and stroked A 2->3):
+	// offsets computed in a case-folded copy do not fit the original
+	"\u212a", "\u2126", "\u212b", "\u1e9e", "\u0130", "\u023a"}
 
 var propNames = []string{"background-image", "font-family", "display", "color", "width", "z-index", "margin", "-webkit-x", "COLOR", "Background-Image",
 	"co lor", "a:b", "x;y", "color}", "", "color/**/", "font-family "}
